@@ -144,6 +144,10 @@ func (mr *msgReader) putFlateReader() {
 	if mr.flateReader != nil {
 		putFlateReader(mr.flateReader)
 		mr.flateReader = nil
+		// The flate reader belongs to the pool now, and soon to another connection.
+		// A Read after the end of the message must not reach it through the limit
+		// reader: it would return, and take away, that connection's data.
+		mr.limitReader.r = mr.readFunc
 	}
 }
 
